@@ -78,6 +78,20 @@ Fixpoint variants (n : node) {struct n} : list val :=
     if p then VPtr None :: map (fun x => VPtr (Some x)) inner else inner
   end.
 
+(* the same value with every float replaced by +Inf (a float that is within no tolerance of
+   itself): used where non-finite floats are inside a property's quantifier (C12), kept out of
+   [variants] because C05/C06/C08 quantify over finite floats *)
+Fixpoint inf_floats (v : val) {struct v} : val :=
+  match v with
+  | VFloat _ => VFloat (S754_infinity false)
+  | VStruct fs => VStruct ((fix go (l : list val) : list val := match l with [] => [] | x :: r => inf_floats x :: go r end) fs)
+  | VSlice n es e => VSlice n ((fix go (l : list val) : list val := match l with [] => [] | x :: r => inf_floats x :: go r end) es) e
+  | VMap n kvs => VMap n ((fix go (l : list (val * val)) : list (val * val) :=
+                             match l with [] => [] | (k, x) :: r => (k, inf_floats x) :: go r end) kvs)
+  | VPtr (Some x) => VPtr (Some (inf_floats x))
+  | _ => v
+  end.
+
 (* ---------- paths ---------- *)
 (* text of a key / index that converts back to it *)
 Definition key_text (k : val) : string :=
